@@ -44,6 +44,10 @@ package main
 //   x.F.m() with F a pointer field and m updating its receiver -> x := { x with f := .. } (trusted:
 //                              the object behind a pointer field is not shared with another field)
 //
+// Round 3 (translate_ctrl.go): the controllers' stateful functions: ledger fields -> GLedger, function
+// variables over method values, type assertions on "sums" interfaces, error comparison, "oracleFuncs",
+// iteration callbacks as loops, promoted methods, "detach" (see the header of translate_ctrl.go).
+//
 // Everything else is *unsupported*: the function is then emitted as `def f : Unsupported := ...`
 // (so that the equality proofs in RigoProofs/GenFuncs*.lean do not compile) and reported in the
 // `funcs` check.  Value semantics is only sound without aliasing, so the translator refuses
@@ -82,6 +86,15 @@ type funcSpec struct {
 	// the same semantics without a join point per statement (keeps long sequences of such
 	// statements, e.g. MergeGovParams, tractable for the proofs)
 	CondAssign bool `json:"condAssign,omitempty"`
+	// WrapArith: translate + - * on int / int64 (int32) of this function with Go's wrap-around
+	// (wrapI64 / wrapI32 around every such operation) instead of the default unbounded Int
+	WrapArith bool `json:"wrapArith,omitempty"`
+	// OracleFuncs: source text of the *function* of a call the translator cannot follow (json.Unmarshal)
+	// -> name of an explicit function parameter and the indices of the call's arguments it is applied to
+	OracleFuncs map[string]oracleFn `json:"oracleFuncs,omitempty"`
+	// Detach: local pointer variable -> source text of a call after which the object it points to is no
+	// longer an element of the container it was taken from (reviewed; the write-back stops there)
+	Detach map[string]string `json:"detach,omitempty"`
 }
 
 type typeSpec struct {
@@ -118,7 +131,9 @@ type funcsExpect struct {
 	About   string                `json:"_about"`
 	Types   map[string]typeSpec   `json:"types"`
 	Externs map[string]externSpec `json:"externs"`
-	Funcs   []funcSpec            `json:"funcs"`
+	// Sums: Go interface -> generated inductive over the listed dynamic types (type assertions)
+	Sums  map[string]sumSpec `json:"sums,omitempty"`
+	Funcs []funcSpec         `json:"funcs"`
 }
 
 // owners: the owning properties ("C16" or "C16,C03")
@@ -151,6 +166,7 @@ type translator struct {
 	globDef []string
 	externs map[string]bool
 	usedTy  map[string]bool
+	extPkgs map[string]*types.Package
 }
 
 const funcsPrelude = `/-
@@ -169,6 +185,21 @@ const funcsPrelude = `/-
   calls listed under "oracles" in funcs.json (interface calls, signature check) -> explicit parameters.
   Trusted besides the reading of Go: distinct pointer fields / map entries / slice elements of the
   *inputs* of a function do not alias each other.
+  Round 3 (controllers, translate_ctrl.go): a ledger field 'ledger.IFinalityLedger[T]' -> 'GLedger T'
+  (below): Get/GetFinality, Set/SetFinality (under the translated 'Key()' of the item), Del/DelFinality,
+  CancelSet(Finality) -> GLedger.get / set / del / cancelSet at the view false / true,
+  IterateReadAll(Finality)Items(callback) -> a 'for' over GLedger.items with the callback inlined
+  ('return nil' = continue, 'return err' = stop with that error); a function variable switched between
+  two method values ('get := l.Get; if ctx.Exec { get = l.GetFinality }') -> a Bool (the view, or the
+  choice between two translated methods); 'x.(*T)' on an interface listed under "sums" -> a generated
+  inductive and its projections (the one-result form panics on a mismatch); 'err == ErrX' -> equality
+  of the labels; calls under "oracleFuncs" -> explicit function parameters; logger calls are dropped
+  (with the evaluation of their arguments); a nil test of a pointer field that funcs.json does not
+  list as optional is taken as 'never nil' (counted in the doc comment of the function).
+  Trusted for the ledger part: a value handed out by a ledger read is a private copy whose changes
+  reach the ledger through Set only (the translator refuses a change of an object after it was handed
+  to Set); reads fail with ErrNotFoundResult only; Set / CancelSet never fail; "detach" entries of
+  funcs.json (reviewed): after the named call a pointer into a container is a detached copy.
 -/
 import Rigo.Types
 
@@ -298,6 +329,7 @@ func (pr *Prog) translateFuncsFull(expectDir string) (string, M, []string, map[s
 	}
 	var b strings.Builder
 	b.WriteString(funcsPrelude)
+	b.WriteString(ctrlPrelude)
 
 	// generated structures (in the order of the sorted Go type names)
 	var tnames []string
@@ -306,9 +338,20 @@ func (pr *Prog) translateFuncsFull(expectDir string) (string, M, []string, map[s
 			tnames = append(tnames, k)
 		}
 	}
+	for k := range fe.Sums {
+		tnames = append(tnames, k)
+	}
 	sort.Strings(tnames)
 	tnames = tr.depOrder(tnames)
 	for _, k := range tnames {
+		if ss, isSum := fe.Sums[k]; isSum {
+			st, probs := tr.genSum(k, ss)
+			for _, p := range probs {
+				problems = append(problems, "sum "+k+": "+p)
+			}
+			b.WriteString("\n" + st)
+			continue
+		}
 		ts := fe.Types[k]
 		st, probs := tr.genStruct(k, ts)
 		for _, p := range probs {
@@ -538,6 +581,19 @@ func (tr *translator) leanType(t types.Type) (string, error) {
 	if isByteSlice(t) {
 		return "Hex", nil
 	}
+	if e := tr.ledgerElem(t); e != nil {
+		et, err := tr.leanType(e)
+		if err != nil {
+			return "", err
+		}
+		return "(GLedger " + et + ")", nil
+	}
+	if k := tr.sumKey(t); k != "" {
+		return tr.exp.Sums[k].Lean, nil
+	}
+	if isByteArray(t) {
+		return "String", nil
+	}
 	if n := structOf(t); n != nil {
 		k := tr.typeKey(n)
 		ts, ok := tr.exp.Types[k]
@@ -635,6 +691,14 @@ func (tr *translator) depOrder(keys []string) []string {
 			*acc = append(*acc, tr.typeKey(n))
 			return
 		}
+		if k := tr.sumKey(t); k != "" {
+			*acc = append(*acc, k)
+			return
+		}
+		if e := tr.ledgerElem(t); e != nil {
+			deps(e, acc, depth+1)
+			return
+		}
 		switch u := t.Underlying().(type) {
 		case *types.Slice:
 			deps(u.Elem(), acc, depth+1)
@@ -649,13 +713,28 @@ func (tr *translator) depOrder(keys []string) []string {
 			return
 		}
 		state[k] = 1
+		if ss, isSum := tr.exp.Sums[k]; isSum {
+			var vs []string
+			for v := range ss.Variants {
+				vs = append(vs, v)
+			}
+			sort.Strings(vs)
+			for _, v := range vs {
+				if isGen[v] {
+					visit(v)
+				}
+			}
+			state[k] = 2
+			out = append(out, k)
+			return
+		}
 		base := k
 		if j := strings.Index(base, "@"); j >= 0 {
 			base = base[:j]
 		}
 		if i := strings.LastIndex(base, "."); i >= 0 {
-			if p := tr.pr.ByRel[base[:i]]; p != nil {
-				if obj := p.Types.Scope().Lookup(base[i+1:]); obj != nil {
+			if p := tr.typesPkg(base[:i]); p != nil {
+				if obj := p.Scope().Lookup(base[i+1:]); obj != nil {
 					if st, ok := obj.Type().Underlying().(*types.Struct); ok {
 						for j := 0; j < st.NumFields(); j++ {
 							if _, mapped := tr.exp.Types[k].Fields[st.Field(j).Name()]; !mapped {
@@ -694,11 +773,11 @@ func (tr *translator) genStruct(key string, ts typeSpec) (string, []string) {
 	if i < 0 {
 		return "", []string{"bad type key"}
 	}
-	p := tr.pr.ByRel[key[:i]]
-	if p == nil {
+	tp := tr.typesPkg(key[:i])
+	if tp == nil {
 		return fmt.Sprintf("/-- `%s`: package not loaded -/\nstructure %s where\n  missing : Unsupported\n", key, ts.Lean), []string{"package not loaded"}
 	}
-	obj := p.Types.Scope().Lookup(key[i+1:])
+	obj := tp.Scope().Lookup(key[i+1:])
 	if obj == nil {
 		return fmt.Sprintf("/-- `%s`: type not found -/\nstructure %s where\n  missing : Unsupported\n", key, ts.Lean), []string{"type not found"}
 	}
@@ -737,7 +816,9 @@ func (tr *translator) genStruct(key string, ts typeSpec) (string, []string) {
 		probs = append(probs, "field "+k+" of funcs.json does not exist")
 		b.WriteString(fmt.Sprintf("  %s : Unsupported\n", ts.Fields[k]))
 	}
-	b.WriteString("  deriving Repr, DecidableEq\n")
+	if !strings.Contains(b.String(), "GLedger") {
+		b.WriteString("  deriving Repr, DecidableEq\n")
+	}
 	return b.String(), probs
 }
 
